@@ -143,6 +143,27 @@ class Native:
         self.bin = os.path.join(env['CARGO_TARGET_DIR'], 'debug', 'vrunner')
         return self.bin
 
+    def run_each(self, named_scripts, seed=0, timeout=120):
+        """run a batch; when the process dies inside one script, keep that script's partial trace (marked crashed) and
+        continue with the scripts after it in a fresh process"""
+        out = {}
+        rest = list(named_scripts)
+        while rest:
+            res, rc, err = self.run(rest, seed=seed, timeout=timeout, eager=True)
+            done = [n for n, _ in rest if n in res and res[n].get('end') is not None]
+            for n in done:
+                out[n] = res[n]
+            if len(done) == len(rest):
+                break
+            # the first script without a complete block is the one that crashed
+            idx = next(i for i, (n, _) in enumerate(rest) if n not in out)
+            n = rest[idx][0]
+            part = res.get(n) or {'trace': [], 'end': None}
+            part['crashed'] = rc
+            out[n] = part
+            rest = rest[idx + 1:]
+        return out
+
     def run(self, named_scripts, seed=0, timeout=120, eager=False):
         """named_scripts: list of (name, script) -> parsed results; a crash/abort is reported per batch"""
         path = os.path.join(self.scratch, 'batch-%d-%d.txt' % (os.getpid(), abs(hash(tuple(n for n, _ in named_scripts))) % 10**9))
